@@ -101,12 +101,16 @@ CHECKS = {
                      "configuration submitted twice (dry run) must get equal, distinct paths inside the job directory.",
                 note="Domain: plain file names and plain dict keys."),
     "C20": dict(category="model_checking", engine="E3", design="5 (C20), 3.5, 3.4",
-                technique="TLA+ XpmConfig: DeprecatedSame by TLC + class-swap pairs judged by TLC; TLA+ XpmDeprecated: all repair sequences by TLC, each replayed with the real fix_deprecated on real workspaces (absolute and relative paths)",
+                technique="TLA+ XpmConfig: DeprecatedSame by TLC + class-swap pairs judged by TLC; TLA+ XpmDeprecated: all repair sequences by TLC, each replayed with the real fix_deprecated on real workspaces (absolute and relative paths); TLA+ XpmDeprecatedSteps: crash between any two file-system operations by TLC (refinement of the atomic repair, recovery), repairs killed before every statement / failing writes validated by TLC",
                 text="Identifier half: TLC checks that swapping a deprecated class for its replacement at any position leaves Enc unchanged; real "
                      "graphs with K2Old/K2 swaps are validated. Repair half: XpmDeprecated models fix_deprecated (link / move / dangling links / "
                      "idempotence); every sequence of <= 3 repairs from every initial link state is replayed on workspaces filled before the "
                      "deprecation (a deprecated task class and a deprecated inner configuration), data files and reachability under the new "
-                     "identifier are checked after every step, then the replacement is resubmitted.",
+                     "identifier are checked after every step, then the replacement is resubmitted. Crash half: XpmDeprecatedSteps gives the repair at "
+                     "the grain of its file-system operations with a Crash action; TLC checks that a complete repair refines the atomic one from any "
+                     "state crashes can leave and makes every job reachable; the real repair is killed before its k-th statement (every k in the "
+                     "thorough tier) or a json.dump fails half-way, the tree is observed, repaired again and observed: both trees must be states "
+                     "the specification reaches (a torn params.json is not one).",
                 note="Frozen schema states that K2Old hashes with K2's type identifier; cross-checked against the live classes."),
     "C12": dict(category="model_checking", engine="E3+E2", design="5 (C12), 3.5",
                 technique="TLA+ XpmConfig DefsOrder: TLC invariants (each object once, children first) + definition lists of real graphs validated by TLC + round-trip isomorphism against the abstract graph + echo task runs",
